@@ -57,13 +57,14 @@ CHECKS = {
         'has to meet: any two legal encodings of one value - whatever partition of arrays and maps into blocks, with or without '
         'byte sizes - decode to that value and consume exactly their own bytes (C16_block_partition_irrelevant, from the C02 '
         'specification relation), and every layout the generic encoder can be asked for is legal (C16_generic_layouts_legal). '
-        'Checked every run on a corpus of 11 derived Rust types x generated values x block sizes {none, 1, 16, large}: the '
+        'Checked every run on a corpus of 21 Rust types (derived structs and enums, tuples, fixed arrays, vectors of zero-width items) x generated values x block sizes {none, 1, 16, large}: the '
         'serializer output is read by the EXTRACTED decoder as exactly one datum, equal to what the generic decoder gives; the '
         'returned count is the number of bytes emitted; the schema-aware deserializer returns an equal Rust value; for types '
-        'without data-carrying enums, to_value + resolve + the generic encoder give an encoding of the same datum; all block '
+        'without data-carrying enums and tuples, to_value + resolve + the generic encoder give an encoding of the same datum; all block '
         'sizes give the same datum.',
-   note='honest level: differential testing with a proved decoder as oracle; the corpus is finite (no tuples / fixed arrays / '
-        'BTreeMap: the derive macro rejects them at compile time) and values come from a PRNG inside the harness',
+   note='honest level: differential testing with a proved decoder as oracle; the corpus is finite (BTreeMap and tuple-typed struct '
+        'fields are rejected by the derive macro at compile time; tuples and arrays appear as top-level types) and values come '
+        'from a PRNG inside the harness',
    technique='Coq theorems for the byte-level contract only; corpus-based differential check of the serde paths against the extracted decoder',
    design='DESIGN.md 5/C16'),
  'C17': dict(
@@ -71,14 +72,14 @@ CHECKS = {
    text='PARTIAL, and mostly NOT by proof: the derive macro and the serde implementations are not modelled. Decided with the proof '
         'machinery: the JSON of every derived schema is parsed by the extracted model parser on every run, and everything that '
         'parser accepts satisfies the C11 well-formedness theorems (restated for records as C17_accepted_record_well_formed); its '
-        'JSON repeats no key (C17_derived_json_strict). Checked every run on 13 derived types (field types, Option / Vec / HashMap '
+        'JSON repeats no key (C17_derived_json_strict). Checked every run on 23 types (field types, Option / Vec / HashMap '
         'nestings, recursion, generics, rename / rename_all / namespace / alias / doc / skip / default, unit and data-carrying '
-        'enums): get_schema does not panic and gives the same schema twice; the schema survives a JSON round trip, its names '
+        'enums, 1-tuples / pairs / fixed arrays over single-field and recursive records, zero-width items): get_schema does not panic and gives the same schema twice; the schema survives a JSON round trip, its names '
         'resolve, no name is defined twice; every generated value serializes, deserializes to an equal value, also through a '
         'container file. Two classes fail on the unchanged tree and are known findings (F54 a data-carrying enum used twice is '
         'defined twice; F55 Option of a data-carrying enum panics in get_schema).',
-   note='honest level: corpus testing; flatten / transparent / tuple fields are not in the corpus (tuples are rejected by the derive '
-        'macro at compile time)',
+   note='honest level: corpus testing; flatten and transparent are not in the corpus; tuple-typed struct fields are rejected by the '
+        'derive macro at compile time (tuples and arrays are covered as top-level types)',
    technique='C11 theorems applied to the derived JSON through the extracted parser; corpus-based round-trip check of derived types',
    design='DESIGN.md 5/C17'),
  'C18': dict(
